@@ -110,13 +110,108 @@ UNIT = {
                 ('seq', 'it.seq() =~= values@.map_values(|v: Value| &v)'),
                 ('so_far', 'appended.0@ =~= items.0@ + values@.subrange(0, it.index@ as int)')],
                 'body_prefix': 'proof { assert(*value == values@[it.index@ as int]); }'}}),
+        {'kind': 'vrs', 'file': 'bifs/lists2.vrs'},
+        bif('concatenate', body_prefix='', loops=2,
+            rewrites=[R3, ('RX', 'R14', r'let mut concatenated = vec!\[\];', 'let mut concatenated: Vec<Value> = vec![];', 1)],
+            ensures=[('the_lists_one_after_another', 'all_lists(values@) ==> r is List && r->List_0.0@ =~= concat_upto(values@, values@.len() as int)'),
+                     ('null_when_an_argument_is_not_a_list', '!all_lists(values@) ==> r is Null')],
+            loop_specs={0: {'iter_name': 'ito', 'invariant': [
+                                ('seq', 'ito.seq() =~= values@.map_values(|v: Value| &v)'),
+                                ('lists_so_far', 'forall |j: int| 0 <= j < ito.index@ ==> (#[trigger] values@[j]) is List'),
+                                ('concatenated_so_far', 'concatenated@ =~= concat_upto(values@, ito.index@ as int)')],
+                            'body_prefix': 'proof { assert(*value == values@[ito.index@ as int]); }'},
+                        1: {'iter_name': 'iti', 'invariant': [
+                                ('ctx', '*value is List, value->List_0 == *items, *value == values@[ito.index@ as int], 0 <= ito.index@ < values@.len()'),
+                                ('seq', 'iti.seq() =~= items.0@.map_values(|v: Value| &v)'),
+                                ('items_so_far', 'concatenated@ =~= concat_upto(values@, ito.index@ as int) + items.0@.subrange(0, iti.index@ as int)')],
+                            'body_prefix': 'proof { assert(*item == items.0@[iti.index@ as int]); }'}}),
+        bif('distinct_values', body_prefix='', loops=1,
+            rewrites=[R3, ('RX', 'R13', r'result\.iter\(\)\.all\(\|v\| !evaluate_equals\(v, item\)\)', 'none_equals(&result, item)', 1),
+                      ('RX', 'R14', r'let mut result = vec!\[\];', 'let mut result: Vec<Value> = vec![];', 1)],
+            ensures=[('first_occurrences_in_order', 'value is List ==> r is List && r->List_0.0@ =~= dedup_items(Seq::<Value>::empty(), value->List_0.0@, value->List_0.0@.len() as int)'),
+                     ('null_otherwise', '!(value is List) ==> r is Null')],
+            loop_specs={0: {'iter_name': 'it', 'invariant': [
+                                ('ctx', '*value is List, value->List_0 == *items'),
+                                ('seq', 'it.seq() =~= items.0@.map_values(|v: Value| &v)'),
+                                ('so_far', 'result@ =~= dedup_items(Seq::<Value>::empty(), items.0@, it.index@ as int)')],
+                            'body_prefix': 'proof { assert(*item == items.0@[it.index@ as int]); }'}}),
+        bif('union', body_prefix='', loops=2,
+            rewrites=[R3, ('RX', 'R13', r'result\.iter\(\)\.all\(\|a\| !evaluate_equals\(a, item\)\)', 'none_equals(&result, item)', 1),
+                      ('RX', 'R14', r'let mut result = vec!\[\];', 'let mut result: Vec<Value> = vec![];', 1)],
+            ensures=[('first_occurrences_over_all_lists_in_order', 'all_lists(lists@) ==> r is List && r->List_0.0@ =~= union_upto(lists@, lists@.len() as int)'),
+                     ('null_when_an_argument_is_not_a_list', '!all_lists(lists@) ==> r is Null')],
+            loop_specs={0: {'iter_name': 'ito', 'invariant': [
+                                ('seq', 'ito.seq() =~= lists@.map_values(|v: Value| &v)'),
+                                ('lists_so_far', 'forall |j: int| 0 <= j < ito.index@ ==> (#[trigger] lists@[j]) is List'),
+                                ('union_so_far', 'result@ =~= union_upto(lists@, ito.index@ as int)')],
+                            'body_prefix': 'proof { assert(*list == lists@[ito.index@ as int]); }'},
+                        1: {'iter_name': 'iti', 'invariant': [
+                                ('ctx', '*list is List, list->List_0 == *items, *list == lists@[ito.index@ as int], 0 <= ito.index@ < lists@.len()'),
+                                ('seq', 'iti.seq() =~= items.0@.map_values(|v: Value| &v)'),
+                                ('items_so_far', 'result@ =~= dedup_items(union_upto(lists@, ito.index@ as int), items.0@, iti.index@ as int)')],
+                            'body_prefix': 'proof { assert(*item == items.0@[iti.index@ as int]); }'}}),
+        bif('flatten_value', body_prefix='', loops=1, ret=None, attrs='#[verifier::exec_allows_no_decreases_clause]',
+            sig_rewrite=[(r'^(\s*)fn ', r'\1pub fn ')],
+            ensures=[('appends_the_flattened_items', 'value is List ==> final(flattened)@ =~= old(flattened)@ + flat_items(value->List_0, 0)'),
+                     ('nothing_for_a_non_list', '!(value is List) ==> final(flattened)@ =~= old(flattened)@')],
+            loop_specs={0: {'iter_name': 'it', 'invariant': [
+                                ('ctx', '*value is List, value->List_0 == *items'),
+                                ('seq', 'it.seq() =~= items.0@.map_values(|v: Value| &v)'),
+                                ('so_far', 'flattened@ + flat_items(*items, it.index@ as int) =~= old(flattened)@ + flat_items(*items, 0)')],
+                            'body_prefix': 'proof { assert(*item == items.0@[it.index@ as int]); }\nlet ghost before = flattened@;',
+                            'body_suffix': 'proof { assert(flat_items(*items, it.index@ as int) =~= (if item is List { flat_items(item->List_0, 0) } else { seq![*item] }) + flat_items(*items, it.index@ + 1)); '
+                                           'assert(flattened@ =~= before + (if item is List { flat_items(item->List_0, 0) } else { seq![*item] })); }'}}),
+        bif('flatten', body_prefix='', loops=0,
+            rewrites=[R3, ('RX', 'R14', r'let mut flattened = vec!\[\];', 'let mut flattened: Vec<Value> = vec![];', 1)],
+            ensures=[('nested_lists_replaced_by_their_items', 'value is List ==> r is List && r->List_0.0@ =~= flat_items(value->List_0, 0)'),
+                     ('null_otherwise', '!(value is List) ==> r is Null')]),
+        bif('sum', body_prefix='', loops=1,
+            rewrites=[R3, ('RX', 'R1s', r'for value in values\.iter\(\)\.skip\(1\) \{', 'for i_ in 1..values.len() {\n        let value = &values[i_];', 1), ('RX', 'R11', r'sum \+= v;', 'num_add_assign(&mut sum, v);', 1)],
+            ensures=[('left_to_right_sum', '(values@.len() > 0 && all_numbers(values@)) ==> r == Value::Number(sum_upto(values@, values@.len() as int))'),
+                     ('null_for_no_or_other_items', '!(values@.len() > 0 && all_numbers(values@)) ==> r is Null')],
+            loop_specs={0: {'invariant': [
+                                ('first', 'values@.len() > 0, values@[0] is Number'),
+                                ('numbers_so_far', 'forall |j: int| 0 <= j < i_ ==> (#[trigger] values@[j]) is Number'),
+                                ('sum_so_far', 'sum == sum_upto(values@, i_ as int)')]}}),
+        bif('mean', body_prefix='', loops=1,
+            rewrites=[R3, ('RX', 'R11', r'sum \+= \*n;', 'num_add_assign(&mut sum, *n);', 1), ('RX', 'R11', r'FeelNumber::zero\(\)', 'num_zero()', 1),
+                      ('RX', 'R11', r'sum / values\.len\(\)\.into\(\)', 'num_div_count(sum, values.len())', 1)],
+            ensures=[('sum_divided_by_the_number_of_items', '(values@.len() > 0 && all_numbers(values@)) ==> r == Value::Number(n_div_count(sum0_upto(values@, values@.len() as int), values@.len() as int))'),
+                     ('null_for_no_or_other_items', '!(values@.len() > 0 && all_numbers(values@)) ==> r is Null')],
+            loop_specs={0: {'iter_name': 'it', 'invariant': [
+                                ('seq', 'it.seq() =~= values@.map_values(|v: Value| &v)'),
+                                ('numbers_so_far', 'values@.len() > 0 && forall |j: int| 0 <= j < it.index@ ==> (#[trigger] values@[j]) is Number'),
+                                ('sum_so_far', 'sum == sum0_upto(values@, it.index@ as int)')],
+                            'body_prefix': 'proof { assert(*value == values@[it.index@ as int]); }'}}),
+        bif('max', body_prefix='', loops=2,
+            rewrites=[R3, ('RX', 'R1s', r'for value in values\.iter\(\)\.skip\(1\) \{', 'for i_ in 1..values.len() {\n        let value = &values[i_];', 2)],
+            ensures=[('greatest_number_nulls_skipped', '(values@.len() > 0 && values@[0] is Number && numbers_or_nulls(values@)) ==> r == Value::Number(max_upto(values@, values@.len() as int))'),
+                     ('null_for_no_items', 'values@.len() == 0 ==> r is Null'),
+                     ('null_for_other_items', '(values@.len() > 0 && values@[0] is Number && !numbers_or_nulls(values@)) ==> r is Null'),
+                     ('strings_or_null', '(values@.len() > 0 && !(values@[0] is Number)) ==> r is String || r is Null')],
+            loop_specs={0: {'invariant': [
+                                ('first', 'values@.len() > 0, values@[0] is Number, values@[0]->Number_0 == *n'),
+                                ('numbers_or_nulls_so_far', 'forall |j: int| 1 <= j < i_ ==> (#[trigger] values@[j]) is Number || values@[j] is Null'),
+                                ('max_so_far', 'max == max_upto(values@, i_ as int)')]},
+                        1: {'invariant': [('first', 'values@.len() > 0, values@[0] is String')]}}),
+        bif('min', body_prefix='', loops=2,
+            rewrites=[R3, ('RX', 'R1s', r'for value in values\.iter\(\)\.skip\(1\) \{', 'for i_ in 1..values.len() {\n        let value = &values[i_];', 2)],
+            ensures=[('least_number', '(values@.len() > 0 && all_numbers(values@)) ==> r == Value::Number(min_upto(values@, values@.len() as int))'),
+                     ('null_for_no_items', 'values@.len() == 0 ==> r is Null'),
+                     ('null_for_other_items', '(values@.len() > 0 && values@[0] is Number && !all_numbers(values@)) ==> r is Null'),
+                     ('strings_or_null', '(values@.len() > 0 && !(values@[0] is Number)) ==> r is String || r is Null')],
+            loop_specs={0: {'invariant': [
+                                ('first', 'values@.len() > 0, values@[0] is Number, values@[0]->Number_0 == *n'),
+                                ('numbers_so_far', 'forall |j: int| 0 <= j < i_ ==> (#[trigger] values@[j]) is Number'),
+                                ('min_so_far', 'min == min_upto(values@, i_ as int)')]},
+                        1: {'invariant': [('first', 'values@.len() > 0, values@[0] is String')]}}),
     ],
 }
 
 NOT_DECIDED = {
     'C08': [
-        'regex based functions (matches, replace, split), string/number conversions, sort with a FEEL comparator, numeric aggregates (min, max, sum, mean, median, mode, stddev: FeelNumber folds), get value / get entries, contains / starts with / ends with / substring before / after (str searching), upper/lower case',
-        'any(list): known finding (pinned by tests), see known_findings.json; flatten, union, distinct values, concatenate not yet under contract',
+        'regex based functions (matches, replace, split), string/number conversions, sort with a FEEL comparator, median, mode, stddev, product (sum, mean, min, max are under contract for numbers; min / max of strings only as "a string or null"), get value / get entries, contains / starts with / ends with / substring before / after (str searching), upper/lower case',
+        'any(list): known finding (pinned by tests), see known_findings.json; flatten, union, distinct values, concatenate are under contract relative to value equality (veq, unit compare)',
         'the length argument of substring is truncated to its integer part (implementation choice); results outside the domain are null',
     ],
     'C05': ['automatic overflow / index obligations of the contracted functions only'],
